@@ -63,8 +63,38 @@ func failedCopyChild(args []string) int {
 		r.Quiesce(20 * time.Second) // idle source: the copied snapshot is still the root
 	}
 	res := map[string]any{"copy_failed": false}
-	fd := &failingDir{base: filepath.Join(base, "copy-fail"), failAt: 2}
-	if err := r.Idx.(bleve.IndexCopyable).CopyTo(fd); err != nil {
+	dest := filepath.Join(base, "copy-fail")
+	fd := &failingDir{base: dest, failAt: 2}
+	if seed%2 == 1 {
+		// the destination runs out of space in the middle of a segment file
+		fd = &failingDir{base: dest, failAt: 1 << 30, failAfterBytes: 600}
+	}
+	r.Rec.Emit("CopyBegin", nil)
+	cerr := r.Idx.(bleve.IndexCopyable).CopyTo(fd)
+	if cerr == nil && fd.faults > 0 {
+		// a fault was injected and CopyTo reports success: then the destination must open
+		rec, _, cidx := sx.RecoveredRecord(dest, "copy", nil)
+		if cidx != nil {
+			_ = cidx.Close()
+		}
+		r.Rec.Emit("Recovered", rec)
+		res["success_despite_fault"] = true
+	}
+	if cerr != nil {
+		// a second backup into the SAME directory (now healthy) must produce a complete copy
+		r.Rec.Emit("CopyBegin", nil)
+		if err := r.Idx.(bleve.IndexCopyable).CopyTo(bleve.FileSystemDirectory(dest)); err != nil {
+			res["retry_err"] = err.Error()
+		} else {
+			rec, _, cidx := sx.RecoveredRecord(dest, "copy", nil)
+			if cidx != nil {
+				_ = cidx.Close()
+			}
+			r.Rec.Emit("Recovered", rec)
+			res["retried"] = true
+		}
+	}
+	if err := cerr; err != nil {
 		res["copy_failed"] = true
 		for k := 0; k < 3; k++ {
 			if _, err := sx.SearchContent(r.Idx); err != nil {
@@ -152,6 +182,10 @@ func failedCopyRuns(c *core.Ctx) ([]*outcome, bool) {
 		}
 		if res == nil {
 			continue
+		}
+		if e, ok := res["retry_err"].(string); ok && e != "" {
+			healthy = false
+			c.Violation("c14/copy-failed", fmt.Sprintf("%s: a second CopyTo into the directory of a failed one fails: %s", name, e), map[string]any{"scenario": name, "seed": seed})
 		}
 		for _, k := range []string{"search_err", "batch_err", "observe_err", "close_err"} {
 			if e, ok := res[k].(string); ok && e != "" {
@@ -309,11 +343,34 @@ func runOne(c *core.Ctx, name string, wl sx.Workload, seed int64) (*outcome, err
 // failingDir is a backup destination whose failAt-th file cannot be created
 // (disk full, permission, ...).
 type failingDir struct {
-	base   string
-	failAt int
-	n      int
-	mu     sync.Mutex
+	base           string
+	failAt         int
+	failAfterBytes int // > 0: every *.zap writer fails once it has taken that many bytes
+	n              int
+	faults         int
+	mu             sync.Mutex
 }
+
+type limitedWriter struct {
+	f    *os.File
+	left int
+	d    *failingDir
+}
+
+func (w *limitedWriter) Write(p []byte) (int, error) {
+	if len(p) > w.left {
+		n, _ := w.f.Write(p[:w.left])
+		w.left = 0
+		w.d.mu.Lock()
+		w.d.faults++
+		w.d.mu.Unlock()
+		return n, fmt.Errorf("no space left on device (injected)")
+	}
+	w.left -= len(p)
+	return w.f.Write(p)
+}
+
+func (w *limitedWriter) Close() error { return w.f.Close() }
 
 func (d *failingDir) GetWriter(path string) (io.WriteCloser, error) {
 	d.mu.Lock()
@@ -321,13 +378,23 @@ func (d *failingDir) GetWriter(path string) (io.WriteCloser, error) {
 	n := d.n
 	d.mu.Unlock()
 	if n >= d.failAt {
+		d.mu.Lock()
+		d.faults++
+		d.mu.Unlock()
 		return nil, fmt.Errorf("no space left on device (injected)")
 	}
 	full := filepath.Join(d.base, path)
 	if err := os.MkdirAll(filepath.Dir(full), 0o700); err != nil {
 		return nil, err
 	}
-	return os.OpenFile(full, os.O_RDWR|os.O_CREATE, 0o600)
+	f, err := os.OpenFile(full, os.O_RDWR|os.O_CREATE, 0o600)
+	if err != nil {
+		return nil, err
+	}
+	if d.failAfterBytes > 0 && strings.HasSuffix(path, ".zap") {
+		return &limitedWriter{f: f, left: d.failAfterBytes, d: d}, nil
+	}
+	return f, nil
 }
 
 func run(c *core.Ctx) error {
